@@ -7,6 +7,8 @@ CONSTANTS MaxLinks = 2
  Muxes = {0,1,2}
  BIdx = {1}
  DiscardVi = "link"
+ Streaming = FALSE
+ PinSer = FALSE
  PLen = 2
  ReadLens = {1,100}
  MaxCalls = 2
@@ -16,5 +18,6 @@ INVARIANT OpenOK
 INVARIANT PositionTruth
 INVARIANT ReadContinues
 INVARIANT ReadOutcome
+INVARIANT InOrder
 INVARIANT SeekOutcome
 CHECK_DEADLOCK FALSE
